@@ -142,7 +142,10 @@ BaseCatalogue == <<
   Ent("type", <<Id("Vec"), P("<", FALSE), G("(", "(A, B)"), P(">", FALSE)>>, {1, 4}, FALSE),        \* 10 generic with comma in a group
   Ent("type", <<Id("Vec"), P("<", FALSE), Id("Vec"), P("<", FALSE), Id("A"), P(">", TRUE), P(">", FALSE)>>, {1, 7}, FALSE),  \* 11 generic ending in >>
   Ent("type", <<Id("Vec"), P("<", FALSE), Id("fn"), G("(", "(A)"), P("-", TRUE), P(">", FALSE), Id("B"), P(">", FALSE)>>, {1, 8}, FALSE), \* 12 fn type inside generics
-  Ent("type", <<Id("HashMap"), P("<", FALSE), Id("A"), P(",", FALSE), Id("B"), P(">", FALSE)>>, {1, 6}, FALSE) >>   \* 13 comma in generics
+  Ent("type", <<Id("HashMap"), P("<", FALSE), Id("A"), P(",", FALSE), Id("B"), P(">", FALSE)>>, {1, 6}, FALSE),   \* comma in generics
+  Ent("expr", <<A("0")>>, {1}, FALSE),                                                              \* 26 member access by tuple index
+  Ent("expr", <<Id("field")>>, {1}, FALSE),                                                         \* 27 field
+  Ent("expr", <<Id("f"), P(":", TRUE), P(":", FALSE), P("<", FALSE), Id("A"), P(">", FALSE), G("(", "()")>>, {1, 6, 7}, FALSE) >>  \* 28 method with turbofish
 NBase == Len(BaseCatalogue)
 ExprBase == 1 .. 20
 TypeBase == 21 .. 25
@@ -351,6 +354,15 @@ FamOperands(dummy) ==
   \cup {Struct(<<Branch("none", <<"b", 1>>, <<Item("unzip", FALSE, "none", <<r1, <<"b", 21>>, r2, <<"b", 25>>>>), Item(nx, FALSE, "none", DefaultOpnds(nx))>>)>>, "none", 0, FALSE) :
           r1 \in TypeRefs, r2 \in TypeRefs, nx \in {"map", "dot_gt", "then"}}
 
+\* member access: both spellings x kinds of member (method call, field, tuple index, turbofish method) x neighbours
+MemberRefs == {<<"b", 2>>, <<"b", 1>>, <<"b", 26>>, <<"b", 28>>}
+FamMembers(dummy) ==
+  {Struct(<<Branch("none", <<"b", 1>>, pre \o <<Item(dop, d, "none", <<ref>>)>> \o post)>>, "none", 0, FALSE) :
+     dop \in {"dot", "dot_gt"}, d \in BOOLEAN, ref \in MemberRefs,
+     pre \in {<<>>, <<Item("map", FALSE, "none", <<<<"b", 1>>>>)>>, <<Item("unzip", FALSE, "none", <<>>)>>, <<Item("partition", FALSE, "none", <<<<"b", 8>>>>)>>,
+               <<Item("collect", FALSE, "none", <<<<"b", 22>>>>)>>, <<Item("flatten", FALSE, "none", <<>>)>>},
+     post \in {<<>>, <<Item("dot", FALSE, "none", <<<<"b", 2>>>>)>>, <<Item("map", FALSE, "none", <<<<"b", 3>>>>)>>, <<Item("dot_gt", TRUE, "none", <<<<"b", 26>>>>)>>}}
+
 \* branches, handlers, let patterns, block-ending branches with and without comma
 BranchPool ==
   {Branch(lt, init, its) : lt \in {"none", "ident", "mut"}, init \in {<<"b", 1>>, <<"b", 6>>, <<"b", 5>>},
@@ -364,6 +376,7 @@ FamBranches(dummy) ==
 Structures(dummy) ==
   TLCEval(CASE Family = "pairs" -> FamPairs(0)
             [] Family = "operands" -> FamOperands(0)
+            [] Family = "members" -> FamMembers(0)
             [] Family = "branches" -> {S \in FamBranches(0) : S.hpos <= Len(S.branches) /\ (S.handler = "none" => S.hpos = 0)})
 
 ---------------------------------------------------------------------------
